@@ -928,6 +928,10 @@ func main() {
 		{"two_prefix_postfix", []lrref.Prod{P("start", e), P("e", T("-"), e), P("e", T("~"), e), P("e", e, T("!")), P("e", T("i"))}, []string{"-", "~", "!"}},
 		{"dangling_else", []lrref.Prod{P("start", e), P("e", T("if"), e), P("e", T("if"), e, T("else"), e), P("e", T("i"))}, []string{"if", "else"}},
 		{"dangling_else_postfix", []lrref.Prod{P("start", e), P("e", T("if"), e), P("e", T("if"), e, T("else"), e), P("e", e, T("!")), P("e", T("i"))}, []string{"if", "else", "!"}},
+		// productions with two terminals that may sit on different levels (the production takes the level of one
+		// particular terminal): a ternary operator next to a binary one, a bracketed prefix next to a binary one
+		{"ternary_binary", []lrref.Prod{P("start", e), P("e", e, T("?"), e, T(":"), e), P("e", e, T("+"), e), P("e", T("i"))}, []string{"?", ":", "+"}},
+		{"bracket_prefix_binary", []lrref.Prod{P("start", e), P("e", T("["), e, T("]"), e), P("e", e, T("+"), e), P("e", T("i"))}, []string{"[", "]", "+"}},
 	}
 	for _, sh := range shapes {
 		subsets := [][]string{sh.ops}
